@@ -152,6 +152,12 @@ Proof.
 Qed.
 Print Assumptions C09_single_refuted.
 
+(* The boolean checker applied to the log of a run of real nodes decides the clauses of the property
+   (safety, not-again, never two reports at once, bounded-rounds liveness of the recorded obligations). *)
+Theorem C09_checker_sound : forall k, K09 k = true -> C09_log_spec k.
+Proof. exact K09_sound. Qed.
+Print Assumptions C09_checker_sound.
+
 Example C09_nonvacuous :
   let uid := fun r : result => r_gas r in
   let r1 := mkRes 0 false true 0 1 (mkTrig 100 2 None) 1 500 [7] (Some 5%Z) (Some 7%Z) in
